@@ -2,7 +2,7 @@
 from propslib import comp_scope
 
 PROP = dict(
-    extract=["editor"],
+    extract=["editor", "process_state"],
     lean_targets=["Chewing.Props.C17"],
     runs=[dict(bin="editor", args=["--queries"], tag="editor"),
           dict(bin="editor", args=["--c17-pairs"], tag="pairs"),
@@ -17,12 +17,23 @@ PROP = dict(
          "getter bursts, reset in the state a random prefix ends in (all four states; saved cursors, chosen alternative, pending flush) "
          "vs. a newly constructed editor (same options, layout kind, engine, user-dictionary entries; estimator clock equal, or in half "
          "of the sessions restarted from the newest stored time with clocks and time stamps left out of the comparison), A alone vs. A beside other contexts (one on a second thread); C API — the same "
-         "three experiments through chewing_* calls in worker processes, plus the logger-slot witness",
+         "three experiments through chewing_* calls in worker processes, plus section D: 2-3 contexts created in ONE process with "
+         "DIFFERENT creation arguments (own system data directory with its own word.dat/tsi.dat or none, drop-in dictionary, "
+         "symbols.dat and swkb.dat variants or none; user path :memory: / new file / copied file; initial options), in both creation "
+         "orders, interleaved on one thread and with one thread per context (every other trace also created on those threads), every "
+         "call's return value and the full observation (all getters, the four enumeration loops — the symbol-table candidate list "
+         "after the backquote key / Ctrl-0/1, easy-symbol output, conversions) compared with the SAME context run ALONE in a fresh "
+         "process (stats capi.D.*: pairs with different symbols.dat / swkb.dat / dictionaries); plus the logger-slot witness",
     trusted_base=["hook H1 (Editor::verif_snapshot, TrieBuf::verif_snapshot) is read-only; layout and conversion answers are recorded "
                   "through wrapper objects installed through the public constructors",
                   "the C layer (capi/src/io.rs) is not modelled in Lean beyond the four iterator slots and the logger slot: its purity, "
                   "independence and reset behaviour rest on the differential executions of harness/src/bin/capi_pure.rs",
-                  "thread schedules are not modelled; the harness runs another context freely on a second thread"],
+                  "thread schedules are not modelled; the harness runs another context freely on a second thread",
+                  "process-wide state: the translator (tools/extractors/process_state.py) enumerates every static / static mut / "
+                  "thread_local! / lazy_static! item of capi/src and src, classifies immutable tables vs. stateful items and fails "
+                  "closed on a stateful item outside the reviewed list (LOGGER, OWNED, cfg-guarded hook CALLBACK); state kept "
+                  "outside Rust statics (files, environment variables read at creation when NULL paths are passed) is a creation "
+                  "argument of the model, not shared state"],
     assumptions=["a query is: every &self getter of Editor (Rust API); at the C level every plain getter, and the enumerate-style calls "
                  "(cand/interval/kbtype/userphrase Enumerate, hasNext, String/Get), which are stateful by design and write only their own "
                  "iterator slot: an observer reads a slot only after its own Enumerate",
@@ -51,7 +62,12 @@ MANIFEST = dict(
          "insert_cgetters / enumerate_overwrites / interval_loop for a small model of the C context's iterator slots (enumerate-style "
          "calls write only their slot); contexts_independent / contexts_independent_panic / steps_commute / other_context_untouched (an interleaved history of "
          "two editors projects to the two separate histories, return values included; its panic, if any, is the panic of one "
-         "context alone); the process-wide logger slot as an explicit model "
+         "context alone); creation included: a process model (Proofs/ProcessState.lean: live contexts by id + logger slot; "
+         "chewing_new2 takes what ITS syspath/userpath hold — dictionaries, swkb.dat, symbols.dat, clock — as CreateArgs) with "
+         "creation_args_local (any history of creations with any arguments, calls and deletions: the events of a context are those "
+         "of its own calls run alone in a fresh process), new2_reads_its_arguments_only, process_step_other, and the translator's "
+         "inventory of process-wide items pinned by process_state_inventory / new2_names_logger_only (a new static cache breaks the "
+         "translator: fails closed); the process-wide logger slot as an explicit model "
          "with logger_isolated_refuted (finding F33) and logger_isolated_partial; clear_eq_fresh / reset_is_fresh (Editor::clear "
          "yields exactly the constructors' editor for the same configuration, dictionary, tables, layout object and clock, up to the "
          "pending flush level; hence every continuation with queries anywhere agrees), its bisimulation form (Bisim, bisim_runs, "
